@@ -79,8 +79,8 @@ macro_rules! raw_bvf { ($t:ty, $n:expr, $bits:expr) => {
         const KIND: &'static str = "bvf";
     }
 }}
-fn raw_word<S: Src>(s: &mut S, bits: usize) -> u64 {
-    match bits { 8 => s.byte() as u64, 16 => s.u16() as u64, _ => s.u64() }
+fn raw_word<S: Src>(s: &mut S, bits: usize) -> u128 {
+    match bits { 8 => s.byte() as u128, 16 => s.u16() as u128, 128 => s.u128(), _ => s.u64() as u128 }
 }
 raw_bvf!(u8, 1, 8);
 raw_bvf!(u8, 2, 8);
@@ -88,6 +88,7 @@ raw_bvf!(u8, 3, 8);
 raw_bvf!(u16, 2, 16);
 raw_bvf!(u64, 1, 64);
 raw_bvf!(u64, 2, 64);
+raw_bvf!(u128, 1, 128);
 
 /// Bvd with 0..=2 allocated words and any length up to the allocation (spare capacity included)
 impl Raw for Bvd {
